@@ -23,18 +23,23 @@ func init() {
 		Level: "exploration",
 		Rule: "exhaustive: ALL 2^15 word sets over the words of length <= 3 over {a,b} x ALL patterns and ALL anagrams (as sequences: the order of the letters matters to the constructor) of length <= 3 over {a,b,?} plus some of length 4, each with blank '?' and with blank 'a' (a letter of the alphabet; '?' is then a letter outside it), through searcher objects that are created once and reused over all the sets of a block; all pattern x anagram pairs of equal length on every 8th set (every set: thorough); the same over the 2^13 word sets of length <= 2 over {a,b,c} with all queries of length <= 2 over {a,b,c,?}; " +
 			"fixed families x blanks at every subset of positions of short members (patterns and rotated anagrams), all-blank and empty queries; seeded sets (alphabets 1..256, up to 5000 words) x conjunctions of 0..3 seeded queries (members with blanks, near-members, letters outside the alphabet, repeated letters, blank equal to a letter), each searched twice on the Dawg, once on another Dawg and again on the first, partly through counting wrappers. " +
+			"User-defined searchers (the Searcher interface is public): harness-written searchers (word length in a set, byte sum modulo m, prefix in a set, the pattern rule written again) alone and combined with the library's, on every 8th of the 2^15 sets and every 2nd of the 2^13 sets (all: thorough) x 28 fixed conjunctions, on the fixed families and on seeded sets; every searcher sits behind a recorder and the recorded callback protocol is checked (complete Step / Backstep / Chosen rounds over all searchers, AllowStep(b) == true of every searcher before Step(b), nesting with depth 0 at the end, AllowWord only where the stepped letters spell a stored word, one Chosen round per returned solution where the steps spell it); " +
+			"re-entrancy: a searcher whose Chosen (or AllowWord) runs complete inner searches with fresh searchers on the SAME Dawg or on another one: inner and outer results must both equal the reference; every such search carries a step budget (AllowStep refuses after 8 x trie size + 1000 calls => Search|runaway); the same conjunction on a Dawg searched before (after deeper, shallower and unconstrained searches) and on a freshly built one. " +
 			"Reference: filter of the sorted list with byte-wise match predicates; ids = ranks. non-trivial = a search on a Dawg with >= 2 words whose expected result is neither empty nor the whole set; distinct = (set, conjunction) by construction in the exhaustive part, by hash otherwise",
 		Assumptions: []string{
 			"oracle refdawg: match predicates over BYTES (pattern: equal length, every non-blank position equal; anagram: equal length, every non-blank letter at least as often in the word; validated against the permutation definition) applied to the sorted list",
 			"no searcher at all = every word (the intersection over an empty family)",
 			"the Dawgs are built with dawg.New; a set that cannot be built is C12's business and is skipped here (counted)",
 			"unchanged Dawg = identical node dump (verif accessor) and identical Lookup results before and after",
+			"a Search may be started from inside a Searcher callback of a running Search on the same Dawg (the Dawg is read-only during a search, nothing in the documentation forbids it); both must behave as if run alone",
+			"user-defined searchers are pure functions of the letters stepped so far; their reference predicates are in the harness",
 		},
 		Run:            run,
 		MinEvaluations: map[string]int{"quick": 5000000, "thorough": 30000000},
 		MinNontrivial:  map[string]int{"quick": 1000000, "thorough": 5000000},
 		RequiredObs: []string{"searches:pattern", "searches:anagram", "searches:pattern&anagram", "searches:no-searcher", "searches_with_reused_searchers", "searches_on_a_second_dawg",
-			"queries:blank_is_a_letter_of_the_set", "queries:letter_outside_the_set", "queries:anagram_with_repeated_letter", "queries:all_blank", "queries:empty", "dawg_unchanged_checks", "spy:balanced_step_backstep", "results:nonempty", "results:empty"},
+			"queries:blank_is_a_letter_of_the_set", "queries:letter_outside_the_set", "queries:anagram_with_repeated_letter", "queries:all_blank", "queries:empty", "dawg_unchanged_checks", "spy:balanced_step_backstep", "results:nonempty", "results:empty",
+			"protocol_traces_checked", "custom:user_searchers_only", "custom:user_and_library_searchers", "nested:from_Chosen_on_the_same_dawg", "nested:from_AllowWord_on_the_same_dawg", "nested:from_Chosen_on_another_dawg", "nested:from_AllowWord_on_another_dawg", "nested:inner_searches", "cold_warm_comparisons"},
 	})
 }
 
@@ -247,6 +252,9 @@ func run(c *engine.Ctx) {
 	exhaustive(c)
 	familiesPart(c)
 	seeded(c)
+	// user-defined searchers, callback protocol, nested searches, cold / warm Dawgs (custom.go)
+	customExhaustive(c)
+	customFamiliesAndSeeded(c)
 }
 
 // ---- 1. exhaustive ----
